@@ -253,6 +253,12 @@ def main_for(module, argv=None) -> int:
 # the caller's process context
 # ---------------------------------------------------------------------------------------------------------------------
 
+def flag(v) -> int:
+  """Strict projection of a boolean component of a style value: 1 for True, 0 for False or None, 2 for anything else (an
+  int, a string ...: such a value may compare equal to True but is not what the library's own writers test for)."""
+  return 1 if v is True else 0 if (v is False or v is None) else 2
+
+
 class AltContext:
   """What the properties state holds whatever the CALLER has done to the process: here DEBUG logging is switched on for the
   library, with a handler that formats every record it receives (as unittest's assertLogs, pytest's caplog or a JSON log
